@@ -14,6 +14,7 @@ import (
 	"runtime/debug"
 	"strings"
 	"sync"
+	"time"
 )
 
 // Kind of a choice point.
@@ -49,7 +50,7 @@ const (
 	VFuel
 	VPanic
 	VExit
-	VLeak    // driver thread finished, other threads blocked forever
+	VLeak     // driver thread finished, other threads blocked forever
 	VDiverged // replayed prefix did not fit (engine error)
 )
 
@@ -59,18 +60,19 @@ func (v Verdict) String() string {
 
 // Config of one execution.
 type Config struct {
-	Prefix    []int // choices to replay; afterwards default choice 0
-	Fuel      int64 // max ticks+points; 0 = default
-	RandMode  int   // RandEnumerate, RandSeeded, RandBounded
-	MapMode   int   // MapSorted (choice point, default sorted), MapNative
-	NumCPU    int   // value returned by NumCPU(); 0 = real
-	ClockAlt  bool  // make time.Now a choice point
-	NoSched   bool  // do not create schedule choice points (always run default)
-	SwitchCost int  // cost of a non-default choice when the running thread is blocked or done (0 = free, as in CHESS)
-	YieldPkg  bool  // activate the package-wide statement yields (hashmap)
-	YieldTicks bool // every function entry and loop iteration executed by a thread other than the driver is a scheduling point
-	TraceOps  bool  // record the sequence of sync operations (for diagnostics)
-	FloatMenu []float64
+	Prefix     []int         // choices to replay; afterwards default choice 0
+	Fuel       int64         // max ticks+points; 0 = default
+	RandMode   int           // RandEnumerate, RandSeeded, RandBounded
+	MapMode    int           // MapSorted (choice point, default sorted), MapNative
+	NumCPU     int           // value returned by NumCPU(); 0 = real
+	ClockAlt   bool          // make time.Now a choice point
+	ClockShift time.Duration // added to the constant clock T0 (lets a harness ask for two instants inside one second)
+	NoSched    bool          // do not create schedule choice points (always run default)
+	SwitchCost int           // cost of a non-default choice when the running thread is blocked or done (0 = free, as in CHESS)
+	YieldPkg   bool          // activate the package-wide statement yields (hashmap)
+	YieldTicks bool          // every function entry and loop iteration executed by a thread other than the driver is a scheduling point
+	TraceOps   bool          // record the sequence of sync operations (for diagnostics)
+	FloatMenu  []float64
 }
 
 const (
